@@ -923,6 +923,15 @@ int _vnacal_new_solve_auto(vnacal_new_solve_state_t *vnssp,
 	    for (int i = 0; i < p_length; ++i) {
 		best_p_vector[i] = vnssp->vnss_p_vector[i][findex];
 	    }
+
+	    /*
+	     * Calculate the squared magnitude of the differences in x_vector
+	     * from the previous best before replacing it.
+	     */
+	    for (int i = 0; i < x_length; ++i) {
+		sum_dx_squared += _vnacommon_cabs2(x_vector[i] -
+						   best_x_vector[i]);
+	    }
 	    (void)memcpy((void *)best_x_vector, (void *)x_vector,
 		    x_length * sizeof(double complex));
 	    (void)memcpy((void *)best_j_matrix, (void *)&j_matrix[0][0],
@@ -1048,10 +1057,22 @@ int _vnacal_new_solve_auto(vnacal_new_solve_state_t *vnssp,
 	vs_update_s_matrices(vnssp);
 
 	/*
-	 * Test for convergence.
+	 * Test for convergence.  If the current solution is the best,
+	 * sum_dx_squared (found above) is the change of the error terms
+	 * from the previous best.  If it was rejected, compare the rejected
+	 * solution with the best: once no strictly better solution exists,
+	 * e.g. at the rounding or noise floor, the trials contract onto the
+	 * best solution and the best solution is the result.
 	 */
-	if (best) {
+	{
 	    const double scale = marquardt_multiplier * marquardt_multiplier;
+
+	    if (!best) {
+		for (int i = 0; i < x_length; ++i) {
+		    sum_dx_squared += _vnacommon_cabs2(x_vector[i] -
+						       best_x_vector[i]);
+		}
+	    }
 
 	    /*
 	     * Calculate the squared magnitude of d_vector.
@@ -1064,13 +1085,6 @@ int _vnacal_new_solve_auto(vnacal_new_solve_state_t *vnssp,
 	    (void)printf("# sum_d_squared      %13.6e\n", sum_d_squared);
 #endif /* DEBUG */
 
-	    /*
-	     * Calculate the squared magnitude of the differences in x_vector.
-	     */
-	    for (int i = 0; i < x_length; ++i) {
-		sum_dx_squared += _vnacommon_cabs2(x_vector[i] -
-						   best_x_vector[i]);
-	    }
 #ifdef DEBUG
 	    (void)printf("# sum_dx_squared     %13.6e\n", sum_dx_squared);
 	    (void)printf("# vn_p_tolerance     %13.6e\n", vnp->vn_p_tolerance);
@@ -1095,7 +1109,7 @@ int _vnacal_new_solve_auto(vnacal_new_solve_state_t *vnssp,
 			best_sum_k_squared, p_length, x_length,
 			best_p_vector, d_vector, x_vector);
 #endif /* LIBVNA_VERIF */
-		up_to_date = true;
+		up_to_date = best;
 		break;
 	    }
 	}
